@@ -364,7 +364,18 @@ class Exec:
         if k == 'agg': return [s.val(st, ev, et) for et, ev in v[1]]
         if k == 'bytes': return list(v[1])
         if k == 'cbin': return s.binop(st, v[1], (), v[2], s.val(st, v[3], v[2]), s.val(st, v[4], v[2]))
-        if k == 'float': return ('f', v[1])
+        if k == 'float':
+            # a float/double CONSTANT is carried as its IEEE bit pattern (so it can be stored / copied / reloaded);
+            # every floating point *operation* is still Inconclusive
+            rt = res(ty) if ty is not None else None
+            if isinstance(rt, FloatT) and rt.k in ('float', 'double'):
+                import struct
+                t = v[1]
+                if t.startswith('0x') and t[2:3] not in 'KLMHR': d = struct.unpack('<d', struct.pack('<Q', int(t, 16)))[0]
+                elif t.startswith('0x'): return ('f', t)
+                else: d = float(t)
+                return struct.unpack('<I', struct.pack('<f', d))[0] if rt.k == 'float' else struct.unpack('<Q', struct.pack('<d', d))[0]
+            return ('f', v[1])
         if k == 'ccast':
             x = s.val(st, v[3], v[2]); rf, rt = res(v[2]), res(v[4])
             if isinstance(x, Ptr): x = s.p2i(x)
